@@ -139,6 +139,20 @@ IsTotalAll(M, dY) ==
 \* all inputs of the model given output values
 AllInputs(M, Y) == [i \in 1..Len(M.ins) |-> InVal(M, Y, i)]
 
+\* --- relevance (C24) -------------------------------------------------------------------------------
+\* component (position in M.comps) that owns input i
+InComp(M, i) == CHOOSE k \in 1..Len(M.comps) : \E j \in 1..Len(M.comps[k].ins) : M.comps[k].ins[j] = i
+CompEdges(M) == {<<M.outs[M.ins[i].src].comp, InComp(M, i)>> : i \in 1..Len(M.ins)}
+RECURSIVE ReachFrom(_, _)
+ReachFrom(E, S) == LET N == S \cup {e[2] : e \in {x \in E : x[1] \in S}} IN IF N = S THEN S ELSE ReachFrom(E, N)
+Reach(M, S) == ReachFrom(CompEdges(M), S)
+CoReach(M, S) == ReachFrom({<<e[2], e[1]>> : e \in CompEdges(M)}, S)
+\* components on a data path from one of the seed outputs to one of the target outputs
+OnPath(M, seeds, targets) == Reach(M, {M.outs[o].comp : o \in seeds}) \cap CoReach(M, {M.outs[o].comp : o \in targets})
+\* fwd: a design variable's derivatives need every component between it and any response; rev: the mirror image
+RelevantComps(M, mode, seed, others) ==
+    IF mode = "fwd" THEN OnPath(M, {seed}, others) ELSE OnPath(M, others, {seed})
+
 \* --- variables of interest ----------------------------------------------------------------------
 \* voi: [out (output id), idx (NdIndex term or the record [k |-> "none"]), flat, scaler, adder]  (exact rationals)
 VoiPos(M, v) == IF v.idx.k = "none" THEN [k \in 1..OSize(M, v.out) |-> k - 1]
